@@ -274,7 +274,8 @@ Theorem swint_sizes_validated : Forall (rejects_unknown_sizes SWINT_SIZES) SWINT
 Proof. unfold SWINT_CLASSES. repeat (apply Forall_cons; [rejects_sizes SWINT_SIZES|]). apply Forall_nil. Qed.
 Print Assumptions swint_sizes_validated.
 
-(* status of F16: do the ConvNeXt classes reject the unknown size "huge"? *)
+(* status of F16 (pinned tree bc2d651: accepted; fixed by 96319fe): do the ConvNeXt classes reject the
+   unknown size "huge"?  True on the current tree: the live statement is convnext_sizes_hold. *)
 Definition convnext_sizes_validated_b : bool :=
   forallb (fun c => negb (is_ok (mk c [("model_type", VStr "huge")]))) CONVNEXT_CLASSES.
 
@@ -287,6 +288,13 @@ Proof.
 Qed.
 Print Assumptions convnext_sizes_full.
 
+(* unconditional, on the current tree: every ConvNeXt class rejects every model_type outside the
+   four documented sizes, for ALL values (stops compiling if F16 returns) *)
+Theorem convnext_sizes_hold : Forall (rejects_unknown_sizes CONVNEXT_SIZES) CONVNEXT_CLASSES.
+Proof. exact (convnext_sizes_full ltac:(vm_compute; reflexivity)). Qed.
+Print Assumptions convnext_sizes_hold.
+
+(* historic (F16, pinned tree): premise false on the current tree *)
 Definition convnext_cex : class_def :=
   match find (fun c => is_ok (mk c [("model_type", VStr "huge")])) CONVNEXT_CLASSES with
   | Some c => c
@@ -322,7 +330,9 @@ Proof.
 Qed.
 Print Assumptions backbone_and_head_reject_two.
 
-(* --- F13: the documented presets must reach the training configuration -------- *)
+(* --- F13 (pinned tree bc2d651: 7 presets did not convert; fixed by 95397fc): the documented presets
+   must reach the training configuration.  Live statements: presets_convert_hold here and
+   presets_and_heads_convert_hold in PerRunChain. -------- *)
 
 Definition model_arg (b h : cfg) : string -> cfg :=
   env_of [("backbone_config", b); ("head_configs", h)] get_model_config_defaults.
@@ -338,6 +348,11 @@ Proof.
 Qed.
 Print Assumptions presets_convert_full.
 
+Theorem presets_convert_hold : forall e, In e PRESETS -> exists c, preset_converts (fst e) = Ok c.
+Proof. exact (presets_convert_full ltac:(vm_compute; reflexivity)). Qed.
+Print Assumptions presets_convert_hold.
+
+(* historic (F13, pinned tree): premise false on the current tree *)
 Definition preset_cex : string :=
   match find (fun e => negb (is_ok (preset_converts (fst e)))) PRESETS with
   | Some e => fst e
@@ -359,7 +374,7 @@ Proof.
 Qed.
 Print Assumptions presets_convert_refuted.
 
-(* unconditional part: the presets whose class is the declared field type convert *)
+(* the part that held on the pinned tree as well: the presets whose class is the declared field type convert *)
 Theorem presets_convert_partial :
   forallb (fun p => is_ok (preset_converts p)) ["unet"; "convnext"; "convnext_tiny"; "swint"; "swint_tiny"] = true.
 Proof. vm_compute. reflexivity. Qed.
@@ -382,10 +397,16 @@ Proof.
   destruct (mk_complete _ _ _ J) as [kv [-> K]].
   unfold to_sleap_nn_cfg in T. apply bind_ok in T. destruct T as [c0 [T M]].
   destruct (has_missing c0) eqn:HM; [discriminate|]. injection M as <-.
-  apply to_cfg_obj_keys in T. destruct T as [kv' [-> K']].
+  pose proof T as T0. apply to_cfg_obj_keys in T. destruct T as [kv' [-> K']].
   unfold verify_training_cfg. rewrite K', K.
   replace (forallb (fun k => mem_str k (field_names cls_TrainingJobConfig)) (field_names cls_TrainingJobConfig))
     with true by (vm_compute; reflexivity).
+  assert (top_values classes cls_TrainingJobConfig kv' = Ok kv') as ->.
+  { apply top_values_fixed.
+    pose proof (to_cfg_gen_obj_entries false classes _ _ _ _ _ cls_TrainingJobConfig T0 eq_refl) as E.
+    eapply Forall_impl; [|exact E]. intros e [f [x [F X]]]. exists f. split; [exact F|].
+    exact (to_cfg_top_fixed _ _ _ _ _ _ X). }
+  cbn [bind].
   apply normalise_identity_on_complete; [exact verify_schema_wf | | exact HM].
   unfold verify_schema. apply complete_all_leaves.
   - rewrite K', K. unfold field_names. rewrite map_map. reflexivity.
@@ -393,22 +414,105 @@ Proof.
 Qed.
 Print Assumptions normalise_identity_on_built.
 
+(* what verify_training_cfg returns, for ANY input it accepts: field by field of TrainingJobConfig the
+   converted supplied value, else the class default *)
+Definition verified_fields (kv1 : list (string * cfg)) : list (string * cfg) :=
+  map (fun f => (f_name f, match lookup (f_name f) kv1 with Some v => v | None => section_default f end))
+      (c_fields cls_TrainingJobConfig).
+
+Lemma verify_shape : forall kv c', verify_training_cfg (VDict kv) = Ok c' ->
+  exists kv1, top_values classes cls_TrainingJobConfig kv = Ok kv1 /\ c' = VDict (verified_fields kv1) /\
+              normalise verify_schema (VDict kv1) = Ok c'.
+Proof.
+  intros kv c' V. unfold verify_training_cfg in V.
+  destruct (forallb _ _); [|discriminate]. apply bind_ok in V. destruct V as [kv1 [TV N]].
+  exists kv1. split; [exact TV|]. split; [|exact N].
+  unfold normalise in N. apply bind_ok in N. destruct N as [c1 [M HN]].
+  destruct (has_missing c1); [discriminate|]. injection HN as <-.
+  unfold verify_schema in M. rewrite merge_node in M. destruct (negb _) in M; [discriminate|].
+  rewrite (merge_fields_flat f_name section_default) in M. cbn [bind] in M. injection M as <-. reflexivity.
+Qed.
+Print Assumptions verify_shape.
+
 Theorem normalise_idempotent_on_any : forall c c',
   verify_training_cfg c = Ok c' -> verify_training_cfg c' = Ok c'.
 Proof.
-  intros c c' V. unfold verify_training_cfg in *. destruct c; try discriminate.
-  destruct (forallb _ _) eqn:F; [|discriminate].
-  pose proof V as V0. unfold normalise in V. apply bind_ok in V. destruct V as [c1 [M N]].
-  destruct (has_missing c1); [discriminate|]. injection N as <-.
-  pose proof (merge_result_complete _ verify_schema_wf _ _ M) as C.
-  unfold verify_schema in M. simpl in M.
-  destruct (negb _) in M; [discriminate|]. apply bind_ok in M. destruct M as [kv' [_ E]]. injection E as <-.
-  unfold verify_schema in C. rewrite complete_node in C. apply complete_fields_keys in C.
-  assert (forallb (fun k => mem_str k (field_names cls_TrainingJobConfig)) (map fst kv') = true) as F'.
-  { rewrite C, map_map. apply forallb_forall. intros k I. apply mem_str_In. exact I. }
-  rewrite F'. eapply normalise_idempotent; [exact verify_schema_wf | exact V0].
+  intros c c' V. destruct c; try discriminate V.
+  destruct (verify_shape _ _ V) as [kv1 [TV [-> N]]].
+  unfold verify_training_cfg.
+  replace (forallb (fun k => mem_str k (field_names cls_TrainingJobConfig)) (map fst (verified_fields kv1)))
+    with true by (unfold verified_fields; rewrite map_map; vm_compute; reflexivity).
+  assert (top_values classes cls_TrainingJobConfig (verified_fields kv1) = Ok (verified_fields kv1)) as ->.
+  { apply top_values_fixed. unfold verified_fields, cls_TrainingJobConfig. cbn [c_fields map].
+    repeat (apply Forall_cons;
+            [ eexists; split; [reflexivity|]; cbn [fst snd f_name f_ty f_opt];
+              match goal with
+              | |- top_value _ ?t ?o (match lookup ?k kv1 with Some v => v | None => section_default ?f end) = _ =>
+                  destruct (lookup k kv1) as [v|] eqn:L;
+                  [ destruct (top_values_lookup _ _ _ _ _ _ TV L) as [f0 [v0 [F0 T0]]];
+                    vm_compute in F0; injection F0 as <-; exact (top_value_idem _ _ _ _ _ T0)
+                  | unfold section_default;
+                    match goal with |- context [to_cfg ?cs ?t' ?o' ?d] =>
+                      destruct (to_cfg cs t' o' d) as [x|] eqn:X;
+                      [ exact (to_cfg_top_fixed false _ _ _ _ _ X) | reflexivity ] end ]
+              end
+            |]).
+    apply Forall_nil. }
+  cbn [bind]. eapply normalise_idempotent; [exact verify_schema_wf | exact N].
 Qed.
 Print Assumptions normalise_idempotent_on_any.
+
+(* THE READING OF THE LAST CLAUSE, as a theorem.  verify_training_cfg returns every section it is
+   given as a dict (or list) node VERBATIM, whatever it holds: no attrs validator, no `oneof` check,
+   no completion runs below the top level.  So a DictConfig / YAML with two backbones, a probability
+   1.5 or a scale -1 passes normalisation unchanged; "configuration objects reject ..." is proved
+   for the constructors of the configuration classes (the theorems of (e) above, and at the
+   builders' entry points in PerRunChain), and the configurations the builders produce cannot hold
+   such values for that reason. *)
+Theorem verify_takes_sections_verbatim : forall kv c' sec v,
+  verify_training_cfg (VDict kv) = Ok c' -> In sec ["data_config"; "model_config"; "trainer_config"] ->
+  lookup sec kv = Some v -> (exists d, v = VDict d) \/ (exists l, v = VList l) ->
+  get [sec] c' = Some v.
+Proof.
+  intros kv c' sec v V I L Sh.
+  destruct (verify_shape _ _ V) as [kv1 [TV [-> _]]].
+  destruct (top_values_lookup_fwd _ _ _ _ _ _ TV L) as [f [v' [_ [T L1]]]].
+  assert (v' = v) as ->.
+  { destruct Sh as [[d ->]|[l ->]]; simpl in T; inversion T; reflexivity. }
+  simpl in I. unfold verified_fields, cls_TrainingJobConfig. cbn [c_fields map f_name].
+  destruct I as [<-|[<-|[<-|[]]]]; cbn [get fields lookup String.eqb Ascii.eqb Bool.eqb]; rewrite L1; reflexivity.
+Qed.
+Print Assumptions verify_takes_sections_verbatim.
+
+(* ... while a scalar or None at a section is rejected, and a non-string scalar at a str field is
+   CONVERTED (normalisation is the identity on built configurations, not on arbitrary containers) *)
+Definition two_backbones : cfg :=
+  VDict [("backbone_config", VDict [("unet", VDict [("filters", VInt 8)]); ("convnext", VDict [("model_type", VStr "huge")]);
+                                    ("swint", VNone)])].
+Definition bad_probability : cfg :=
+  VDict [("augmentation_config", VDict [("intensity", VDict [("contrast_p", VFloat (3 # 2))])]);
+         ("preprocessing", VDict [("scale", VFloat (-1))])].
+Definition unvalidated_container : cfg :=
+  VDict [("data_config", bad_probability); ("model_config", two_backbones); ("trainer_config", VDict [])].
+Example ex_verify_validates_nothing_below_the_top :
+  (exists c', verify_training_cfg unvalidated_container = Ok c' /\
+              get ["model_config"] c' = Some two_backbones /\ get ["data_config"] c' = Some bad_probability) /\
+  is_ok (mk cls_BackboneConfig [("unet", default_obj cls_UNetConfig); ("convnext", default_obj cls_ConvNextConfig)]) = false /\
+  is_ok (mk cls_IntensityConfig [("contrast_p", VFloat (3 # 2))]) = false /\
+  verify_training_cfg (VDict [("data_config", VInt 3)]) = Err ValidationError /\
+  verify_training_cfg (VDict [("data_config", VNone)]) = Err ValidationError /\
+  (forall dc mc tc c', verify_training_cfg (VDict [("data_config", VDict dc); ("model_config", VDict mc);
+                                                   ("trainer_config", VDict tc); ("name", VInt 123)]) = Ok c' ->
+                       get ["name"] c' = Some (VStr "123")).
+Proof.
+  split; [vm_compute; eexists; repeat split|].
+  repeat (split; [vm_compute; reflexivity|]).
+  intros dc mc tc c' V. destruct (verify_shape _ _ V) as [kv1 [TV [-> _]]].
+  destruct (top_values_lookup_fwd _ _ _ _ "name" (VInt 123) TV eq_refl) as [f [v' [F [T L1]]]].
+  vm_compute in F. injection F as <-. vm_compute in T. injection T as <-.
+  unfold verified_fields, cls_TrainingJobConfig. cbn [c_fields map f_name get fields lookup String.eqb Ascii.eqb Bool.eqb].
+  rewrite L1. reflexivity.
+Qed.
 
 (* every class can be default-constructed and gives the declared defaults
    (so `default_obj`, used as "the schema default" above, is what `Cls()` returns) *)
